@@ -46,8 +46,17 @@ def spellings(qn):
 class Val:
     """opaque attribute value (its validity is the verdict of the stubbed callee)"""
 
-    def __init__(self, tag='v'):
+    def __init__(self, tag='v', falsy=False):
         self.tag = tag
+        self.falsy = falsy
+
+    def __bool__(self):
+        return not self.falsy
+
+    def __eq__(self, o):
+        return self is o
+
+    __hash__ = object.__hash__
 
     def __repr__(self):
         return f'<Val {self.tag}>'
@@ -157,11 +166,10 @@ def _task(name, cname, tkey, gstate):
                 for key in spellings(qn):
                     if surface == 'ctor' and not key.isidentifier():
                         continue            # not expressible as a keyword argument
-                    for verdict in ('ok', 'TypeError', 'ValueError'):
+                    for verdict, v in (('ok', Val()), ('ok', Val(falsy=True)), ('ok', ''), ('ok', 0), ('TypeError', Val()), ('ValueError', Val())):
                         n += 1
                         mode[0] = verdict
                         calls.clear()
-                        v = Val()
                         try:
                             if surface == 'ctor':
                                 e = fresh() if value == '' else None
@@ -441,15 +449,24 @@ def replay_source(o):
         tname = [t for q, t, r in attrs if q == qn][0]
         good = elem._witness(xsdspec.SIMPLE[tname]) if tname in xsdspec.SIMPLE else 'x'
         key = spellings(qn)[0]
-        return head + f'''e = {mk}
-key, good = {key!r}, {good!r}
+        return head + f'''key, good = {key!r}, {good!r}
 bad = 0
-try:
-    {'setattr(e, key, good)' if w['surface'] != 'dict' else 'e._set_attributes({key: good})'}
-    print('set', key, '->', e.attributes)
-    if e.attributes.get({qn!r}) != good: bad = 1
-except Exception as ex:
-    print('setting declared attribute', {qn!r}, 'raises', type(ex).__name__, ex); bad = 1
+# contract replayed natively: a non-None value is either stored under the schema name or rejected (TypeError/ValueError)
+# leaving the attributes untouched; it is never dropped silently
+for val in (good, '', 0, 0.0, False):
+    e = {mk}
+    try:
+        {'setattr(e, key, val)' if w['surface'] != 'dict' else 'e._set_attributes({key: val})'}
+        out = 'ok'
+    except (TypeError, ValueError) as ex:
+        out = 'rejected'
+    except Exception as ex:
+        out = type(ex).__name__
+    print('set', key, '=', repr(val), '->', out, e.attributes)
+    if out == 'ok' and not ({qn!r} in e.attributes and e.attributes[{qn!r}] is val): bad = 1
+    if out == 'rejected' and e.attributes: bad = 1
+    if out not in ('ok', 'rejected'): bad = 1
+    if val is good and out != 'ok': bad = 1
 print({o['detail']!r})
 sys.exit(bad)
 '''
@@ -550,12 +567,16 @@ def run(tier='quick', seed=0):
     all_obs.append(dict(oid='C04/lemma/replace_key_underline_with_hyphen', status='discharged' if cex is None else 'violated', level='bounded',
                         detail=cex, paths=n, backend='native-exhaustive', witness=None, name=None, cname=None))
     srcs = []
-    for o in all_obs:
-        if o['status'] == 'violated' and o.get('witness') and o.get('cname'):
-            src = replay_source(o)
-            if src:
-                srcs.append((o['oid'], src, str(o.get('detail'))))
-    replayed = report.replay_many('C04', srcs)
+    cand = sorted((o for o in all_obs if o['status'] == 'violated' and o.get('witness') and o.get('cname')
+                   and R.match_known(o['oid'].split('@')[0], o.get('detail')) is None), key=lambda o: o['oid'])
+    # known findings are replayed too (a sample of them), new violations first
+    kn = sorted((o for o in all_obs if o['status'] == 'violated' and o.get('witness') and o.get('cname')
+                 and R.match_known(o['oid'].split('@')[0], o.get('detail')) is not None), key=lambda o: o['oid'])
+    for o in cand[:report.REPLAY_CAP] + kn[:16]:
+        src = replay_source(o)
+        if src:
+            srcs.append((o['oid'], src, str(o.get('detail'))))
+    replayed = report.replay_many('C04', srcs, cap=len(srcs))
     for o in sorted(all_obs, key=lambda o: o['oid']):
         ob = report.Ob(o['oid'], o['status'], level=o.get('level', 'proved'), backend=o.get('backend', 'z3'), detail=o.get('detail'), paths=o.get('paths', 0))
         if o['status'] == 'violated':
